@@ -23,6 +23,57 @@ def det(t):
 def glyph_index(spec):
     return {g["name"]: g for g in spec["glyphs"]}
 
+def is_dyadic(v, bits=3, lim=2 ** 20):
+    """v is a multiple of 2**-bits of moderate size: products/sums of a few such numbers are exact in binary64"""
+    return abs(v) < lim and float(v * (1 << bits)).is_integer()
+
+
+def resolve_ex(gi, name, t=IDENT, flipped=False, exact=True):
+    """like resolve() but yields (points, reversed?, exact?) - exact means every transform on the chain has dyadic entries
+    (multiples of 1/8) and the points are multiples of 1/1024, so that floating-point evaluation is exact in any
+    association order and rounding at x.5 is unambiguous"""
+    g = gi[name]
+    out = []
+    for c in g.get("contours", []):
+        ex = exact and all(is_dyadic(x, 10) and is_dyadic(y, 10) for x, y, _ in c)
+        out.append(([(*apply(t, (x, y)), ty) for x, y, ty in c], flipped, ex))
+    for comp in g.get("components", []):
+        if comp["base"] not in gi:
+            continue
+        ct = tuple(comp["t"])
+        out.extend(resolve_ex(gi, comp["base"], compose(t, ct), flipped ^ (det(ct) < 0), exact and all(is_dyadic(v) for v in ct)))
+    return out
+
+
+class P(tuple):
+    """rounded point that remembers its unrounded value (.f) and whether rounding it is unambiguous (.strict)"""
+
+    def __new__(cls, r, f=None, strict=True):
+        o = tuple.__new__(cls, r)
+        o.f = f
+        o.strict = strict
+        return o
+
+
+def near_half(v, eps=1e-7):
+    fr = v - math.floor(v)
+    return abs(fr - 0.5) < eps
+
+
+def round_point(p, exact):
+    """ot_round both coordinates; the result is 'strict' unless the chain was inexact and a coordinate sits on a rounding boundary"""
+    return P((ot_round(p[0]), ot_round(p[1])), (p[0], p[1]), exact or not (near_half(p[0]) or near_half(p[1])))
+
+
+def point_eq(got, exp):
+    """got: point read from the font; exp: P from round_point (or a plain tuple)"""
+    if tuple(got) == tuple(exp):
+        return True
+    if isinstance(exp, P) and not exp.strict:
+        return all(g == e or (near_half(f) and abs(g - e) <= 1) for g, e, f in zip(got, exp, exp.f))
+    return False
+
+
 def resolve(gi, name, t=IDENT, flipped=False, depth=0):
     """-> list of (points, reversed?) in drawing order; points = [(x,y,type)] transformed."""
     g = gi[name]
@@ -141,7 +192,7 @@ def n1(c):
         for p in pts:
             d.append((p[0] - p0[0], p[1] - p0[1])); p0 = p
         d = tuple(d)
-        if op == "curve" and len(d) == 3 and d[0] == (0, 0) and d[2] == (0, 0):
+        if op.startswith("curve") and len(d) == 3 and d[0] == (0, 0) and d[2] == (0, 0):
             op, d = "line", (d[1],)      # a curve whose control points coincide with its end points is a line
         rel.append((op, d))
         cur = pts[-1]
